@@ -32,34 +32,108 @@ var vrtModels map[string]modelFn
 
 func init() {
 	models = map[string]modelFn{
-		"strings.Split":                          mStringsSplit,
-		"strings.Replace":                        mStringsReplace,
-		"strings.ReplaceAll":                     func(ex *Exec, a []Val) Val { return mStringsReplace(ex, []Val{a[0], a[1], a[2], cint(-1, 64, true)}) },
-		"strings.Contains":                       mStringsContains,
-		"strings.Index":                          func(ex *Exec, a []Val) Val { return goInt(ex.indexOf(a[0].(Str), a[1].(Str), 0)) },
-		"strings.IndexByte":                      func(ex *Exec, a []Val) Val { return goInt(ex.indexOf(a[0].(Str), Str{B: []Int{a[1].(Int)}}, 0)) },
-		"strings.HasPrefix":                      mStringsHasPrefix,
-		"strings.HasSuffix":                      mStringsHasSuffix,
-		"strings.TrimSuffix":                     mStringsTrimSuffix,
-		"strings.TrimPrefix":                     mStringsTrimPrefix,
-		"strings.TrimSpace":                      mStringsTrimSpace,
-		"strings.TrimRight":                      mStringsTrimRight,
-		"strings.Join":                           mStringsJoin,
-		"(*strings.Builder).Write":               mBufWriteBytes,
-		"(*strings.Builder).WriteString":         mBufWriteString,
-		"(*strings.Builder).WriteByte":           mBufWriteByte,
-		"(*strings.Builder).WriteRune":           mBufWriteRune,
-		"(*strings.Builder).String":              mBufString,
-		"(*strings.Builder).Len":                 mBufLen,
-		"(*strings.Builder).Reset":               mBufReset,
-		"(*strings.Builder).Grow":                func(ex *Exec, a []Val) Val { return nil },
-		"(*bytes.Buffer).Write":                  mBufWriteBytes,
-		"(*bytes.Buffer).WriteString":            mBufWriteString,
-		"(*bytes.Buffer).WriteByte":              mBufWriteByte,
-		"(*bytes.Buffer).WriteRune":              mBufWriteRune,
-		"(*bytes.Buffer).String":                 mBufString,
-		"(*bytes.Buffer).Len":                    mBufLen,
-		"(*bytes.Buffer).Reset":                  mBufReset,
+		"strings.Split":                  mStringsSplit,
+		"strings.Replace":                mStringsReplace,
+		"strings.ReplaceAll":             func(ex *Exec, a []Val) Val { return mStringsReplace(ex, []Val{a[0], a[1], a[2], cint(-1, 64, true)}) },
+		"strings.Contains":               mStringsContains,
+		"strings.Index":                  func(ex *Exec, a []Val) Val { return goInt(ex.indexOf(a[0].(Str), a[1].(Str), 0)) },
+		"strings.IndexByte":              func(ex *Exec, a []Val) Val { return goInt(ex.indexOf(a[0].(Str), Str{B: []Int{a[1].(Int)}}, 0)) },
+		"strings.HasPrefix":              mStringsHasPrefix,
+		"strings.HasSuffix":              mStringsHasSuffix,
+		"strings.TrimSuffix":             mStringsTrimSuffix,
+		"strings.TrimPrefix":             mStringsTrimPrefix,
+		"strings.TrimSpace":              mStringsTrimSpace,
+		"strings.TrimRight":              mStringsTrimRight,
+		"strings.Join":                   mStringsJoin,
+		"(*strings.Builder).Write":       mBufWriteBytes,
+		"(*strings.Builder).WriteString": mBufWriteString,
+		"(*strings.Builder).WriteByte":   mBufWriteByte,
+		"(*strings.Builder).WriteRune":   mBufWriteRune,
+		"(*strings.Builder).String":      mBufString,
+		"(*strings.Builder).Len":         mBufLen,
+		"(*strings.Builder).Reset":       mBufReset,
+		"(*strings.Builder).Grow":        func(ex *Exec, a []Val) Val { return nil },
+		"(*bytes.Buffer).Write":          mBufWriteBytes,
+		"(*bytes.Buffer).WriteString":    mBufWriteString,
+		"(*bytes.Buffer).WriteByte":      mBufWriteByte,
+		"(*bytes.Buffer).WriteRune":      mBufWriteRune,
+		"(*bytes.Buffer).String":         mBufString,
+		"(*bytes.Buffer).Len":            mBufLen,
+		"(*bytes.Buffer).Reset":          mBufReset,
+		// the process environment as a fixed, empty stub: no variables set, no files present
+		"os.Getwd":     func(ex *Exec, a []Val) Val { return Tuple{cstr("/"), nil} },
+		"os.Getenv":    func(ex *Exec, a []Val) Val { return cstr("") },
+		"os.LookupEnv": func(ex *Exec, a []Val) Val { return Tuple{cstr(""), Bool{C: false}} },
+		"os.Stat": func(ex *Exec, a []Val) Val {
+			return Tuple{nil, ex.newError(concatStr(cstr("stat "), concatStr(a[0].(Str), cstr(": no such file or directory"))))}
+		},
+		"path/filepath.Join": func(ex *Exec, a []Val) Val {
+			var parts []string
+			for _, e := range a[0].(Slice).elems() {
+				s, ok := e.(Str).conc()
+				if !ok {
+					unsupported("filepath.Join on a symbolic string")
+				}
+				parts = append(parts, s)
+			}
+			return cstr(filepath.Join(parts...))
+		},
+		// reflect.DeepEqual on two interface values of basic / string / struct-of-basic dynamic types
+		"reflect.DeepEqual": func(ex *Exec, a []Val) Val {
+			x, xi := a[0].(Iface)
+			y, yi := a[1].(Iface)
+			if !xi || !yi {
+				return Bool{C: a[0] == nil && a[1] == nil}
+			}
+			if !types.Identical(x.T, y.T) {
+				return Bool{C: false}
+			}
+			var flat func(t types.Type, d int) bool
+			flat = func(t types.Type, d int) bool {
+				switch u := t.Underlying().(type) {
+				case *types.Basic:
+					return true
+				case *types.Struct:
+					for i := 0; i < u.NumFields() && d < 4; i++ {
+						if !flat(u.Field(i).Type(), d+1) {
+							return false
+						}
+					}
+					return d < 4
+				}
+				return false
+			}
+			if !flat(x.T, 0) {
+				unsupported("reflect.DeepEqual on %s", typeString(x.T))
+			}
+			if _, isNat := x.V.(Native); isNat {
+				unsupported("reflect.DeepEqual on a native value")
+			}
+			return ex.valEq(x.V, y.V)
+		},
+		"path.Join": func(ex *Exec, a []Val) Val {
+			var parts []string
+			for _, e := range a[0].(Slice).elems() {
+				s, ok := e.(Str).conc()
+				if !ok {
+					unsupported("path.Join on a symbolic string")
+				}
+				parts = append(parts, s)
+			}
+			return cstr(path.Join(parts...))
+		},
+		"net/url.ParseRequestURI": func(ex *Exec, a []Val) Val {
+			s, ok := a[0].(Str).conc()
+			if !ok {
+				unsupported("url.ParseRequestURI on a symbolic string")
+			}
+			if _, err := url.ParseRequestURI(s); err != nil {
+				return Tuple{Ptr{}, ex.newError(cstr(err.Error()))}
+			}
+			// only the error is looked at by the callers in reach; the URL itself is not modelled
+			var cell Val = Struct{}
+			return Tuple{Ptr{&cell}, nil}
+		},
 		"encoding/json.Marshal":                  mJSONMarshal,
 		"encoding/json.NewEncoder":               mJSONNewEncoder,
 		"(*encoding/json.Encoder).SetEscapeHTML": mJSONSetEscapeHTML,
@@ -97,14 +171,39 @@ func init() {
 		"html/template.JSEscapeString":           func(ex *Exec, a []Val) Val { return ex.jsEscape(a[0].(Str)) },
 		"text/template.JSEscapeString":           func(ex *Exec, a []Val) Val { return ex.jsEscape(a[0].(Str)) },
 		"regexp.Compile":                         mRegexpCompile,
-		"unicode.Is":                             mUnicodeIs,
-		"unicode.In":                             mUnicodeIs,
-		"sort.Slice":                             mSortSlice,
-		"sort.SliceStable":                       mSortSlice,
-		"sort.Strings":                           mSortStrings,
-		"sort.Ints":                              mSortInts,
-		"(*regexp.Regexp).MatchString":           mRegexpMatchString,
-		"unicode/utf8.RuneCountInString":         mRuneCount,
+		"regexp.MustCompile": func(ex *Exec, a []Val) Val {
+			r := mRegexpCompile(ex, a).(Tuple)
+			if r[1] != nil {
+				ex.gopanic("explicit", "regexp: Compile: pattern does not compile")
+			}
+			return r[0]
+		},
+		"(*regexp.Regexp).ReplaceAllString": func(ex *Exec, a []Val) Val {
+			re := regexpOf(ex, a[0])
+			src, ok1 := a[1].(Str).conc()
+			repl, ok2 := a[2].(Str).conc()
+			if !ok1 || !ok2 {
+				unsupported("regexp replace on a symbolic string")
+			}
+			return cstr(re.ReplaceAllString(src, repl))
+		},
+		"(*regexp.Regexp).FindString": func(ex *Exec, a []Val) Val {
+			re := regexpOf(ex, a[0])
+			src, ok := a[1].(Str).conc()
+			if !ok {
+				unsupported("regexp find on a symbolic string")
+			}
+			return cstr(re.FindString(src))
+		},
+		"(*regexp.Regexp).String":        func(ex *Exec, a []Val) Val { return cstr(regexpOf(ex, a[0]).String()) },
+		"unicode.Is":                     mUnicodeIs,
+		"unicode.In":                     mUnicodeIs,
+		"sort.Slice":                     mSortSlice,
+		"sort.SliceStable":               mSortSlice,
+		"sort.Strings":                   mSortStrings,
+		"sort.Ints":                      mSortInts,
+		"(*regexp.Regexp).MatchString":   mRegexpMatchString,
+		"unicode/utf8.RuneCountInString": mRuneCount,
 		"unicode/utf8.DecodeRuneInString": func(ex *Exec, a []Val) Val {
 			s := a[0].(Str)
 			ex.needBytes(s, "DecodeRuneInString")
@@ -1584,6 +1683,14 @@ func mRegexpCompile(ex *Exec, args []Val) Val {
 	}
 	var cell Val = &RegexpObj{re}
 	return Tuple{Ptr{&cell}, nil}
+}
+
+func regexpOf(ex *Exec, v Val) *regexp.Regexp {
+	p := v.(Ptr)
+	if p.P == nil {
+		ex.gopanic("nil-deref", "nil *regexp.Regexp")
+	}
+	return (*p.P).(*RegexpObj).re
 }
 
 func mRegexpMatchString(ex *Exec, args []Val) Val {
